@@ -267,6 +267,14 @@ def add_missing_imports(source: str) -> str:
     Returns:
         str: Source code with added imports
     """
+    # Behind "from module import *" a name that looks undefined may well be defined
+    if any(
+        alias.name == "*"
+        for node in core.walk(core.parse(source), ast.ImportFrom)
+        for alias in node.names
+    ):
+        return source
+
     undefined_variables = tracing.get_undefined_variables(source)
     if undefined_variables:
         return _fix_undefined_variables(source, undefined_variables)
